@@ -829,6 +829,10 @@ def isinstance_shim(obj, cls):
     if isinstance(obj, SBool):
         t = cls if isinstance(cls, tuple) else (cls,)
         return any(c in (bool, int, object, SBool) for c in t)
+    if isinstance(obj, SComplex):
+        t = cls if isinstance(cls, tuple) else (cls,)
+        from numbers import Number, Complex
+        return any(c in (complex, Number, Complex, object, SComplex) for c in t)
     if isinstance(obj, SBytes):
         t = cls if isinstance(cls, tuple) else (cls,)
         if obj.mutable:
@@ -943,6 +947,177 @@ def sum_shim(it, start=0):
     return r
 
 
+class SNorm:
+    """abs() of a symbolic complex: only comparable; encoded through squares (no square roots)"""
+
+    def __init__(self, sq):
+        self.sq = sq        # z3 Real term, >= 0
+
+    def _le(self, t):
+        te = rexpr(t)
+        return z3.And(te >= 0, self.sq <= te * te)
+
+    def _lt(self, t):
+        te = rexpr(t)
+        return z3.And(te > 0, self.sq < te * te)
+
+    def __le__(self, t):
+        if isinstance(t, SNorm):
+            return SBool(self.sq <= t.sq)
+        return SBool(self._le(t))
+
+    def __lt__(self, t):
+        if isinstance(t, SNorm):
+            return SBool(self.sq < t.sq)
+        return SBool(self._lt(t))
+
+    def __gt__(self, t):
+        if isinstance(t, SNorm):
+            return SBool(self.sq > t.sq)
+        return SBool(z3.Not(self._le(t)))
+
+    def __ge__(self, t):
+        if isinstance(t, SNorm):
+            return SBool(self.sq >= t.sq)
+        return SBool(z3.Not(self._lt(t)))
+
+    def __eq__(self, t):
+        if isinstance(t, SNorm):
+            return SBool(self.sq == t.sq)
+        te = rexpr(t)
+        return SBool(z3.And(te >= 0, self.sq == te * te))
+
+    def __ne__(self, t):
+        r = self.__eq__(t)
+        return ~r
+
+    def __hash__(self):
+        raise OutOfModel('hash of symbolic norm')
+
+    def __bool__(self):
+        return bool(SBool(self.sq != 0))
+
+
+class SComplex:
+    """complex stand-in: pair of z3 reals"""
+
+    def __init__(self, re=0, im=0):
+        if isinstance(re, SComplex):
+            self.re, self.im = re.re, re.im
+            return
+        if isinstance(re, complex):
+            re, im0 = re.real, re.imag
+            im = im + im0 if not is_sym(im) else im + im0
+        self.re = rexpr(re)
+        self.im = rexpr(im)
+        if self.re is None or self.im is None:
+            raise TypeError('complex() argument must be a number')
+
+    @staticmethod
+    def of(x):
+        if isinstance(x, SComplex):
+            return x
+        if isinstance(x, complex):
+            return SComplex(x.real, x.imag)
+        r = rexpr(x)
+        if r is None:
+            return None
+        c = SComplex.__new__(SComplex)
+        c.re, c.im = r, z3.RealVal(0)
+        return c
+
+    @staticmethod
+    def mk(re, im):
+        c = SComplex.__new__(SComplex)
+        c.re, c.im = re, im
+        return c
+
+    @property
+    def real(self):
+        return SReal(self.re)
+
+    @property
+    def imag(self):
+        return SReal(self.im)
+
+    def __add__(s, o):
+        o = SComplex.of(o)
+        return NotImplemented if o is None else SComplex.mk(s.re + o.re, s.im + o.im)
+    __radd__ = __add__
+
+    def __sub__(s, o):
+        o = SComplex.of(o)
+        return NotImplemented if o is None else SComplex.mk(s.re - o.re, s.im - o.im)
+
+    def __rsub__(s, o):
+        o = SComplex.of(o)
+        return NotImplemented if o is None else SComplex.mk(o.re - s.re, o.im - s.im)
+
+    def __mul__(s, o):
+        o = SComplex.of(o)
+        if o is None:
+            return NotImplemented
+        return SComplex.mk(z3.simplify(s.re * o.re - s.im * o.im), z3.simplify(s.re * o.im + s.im * o.re))
+    __rmul__ = __mul__
+
+    def __truediv__(s, o):
+        if isinstance(o, (SComplex, complex)):
+            o = SComplex.of(o)
+            den = o.re * o.re + o.im * o.im
+            if bool(SBool(den == 0)):
+                raise ZeroDivisionError('complex division by zero')
+            return SComplex.mk((s.re * o.re + s.im * o.im) / den, (s.im * o.re - s.re * o.im) / den)
+        oe = rexpr(o)
+        if oe is None:
+            return NotImplemented
+        if bool(SBool(oe == 0)):
+            raise ZeroDivisionError('complex division by zero')
+        return SComplex.mk(s.re / oe, s.im / oe)
+
+    def __neg__(s):
+        return SComplex.mk(-s.re, -s.im)
+
+    def __pos__(s):
+        return s
+
+    def __abs__(s):
+        return SNorm(s.re * s.re + s.im * s.im)
+
+    def __eq__(s, o):
+        o = SComplex.of(o)
+        if o is None:
+            return False
+        return SBool(z3.And(s.re == o.re, s.im == o.im))
+
+    def __ne__(s, o):
+        r = s.__eq__(o)
+        return True if r is False else ~r
+
+    def __hash__(s):
+        raise OutOfModel('hash of symbolic complex')
+
+    def __bool__(s):
+        return bool(SBool(z3.Or(s.re != 0, s.im != 0)))
+
+    def conjugate(s):
+        return SComplex.mk(s.re, -s.im)
+
+    def __repr__(s):
+        return 'SComplex(%s, %s)' % (z3.simplify(s.re), z3.simplify(s.im))
+
+    def _sx_model_value(self, m):
+        from .sym import model_value
+        return [model_value(m, SReal(self.re)), model_value(m, SReal(self.im))]
+
+
+def complex_shim(re=0, im=0):
+    if is_sym(re) or is_sym(im) or isinstance(re, SComplex) or isinstance(im, SComplex):
+        if isinstance(im, SComplex) or isinstance(re, SComplex):
+            return SComplex.of(re) + SComplex.of(im) * SComplex.mk(z3.RealVal(0), z3.RealVal(1))
+        return SComplex(re, im)
+    return complex(re, im)
+
+
 class SLookup:
     """a module-level list/tuple indexed by a symbolic int: forks once per distinct value"""
 
@@ -978,13 +1153,13 @@ class SLookup:
         raise IndexError('list index out of range')
 
 
-_SHIM2REAL = {bytes_shim: bytes, bytearray_shim: bytearray, int_shim: int, float_shim: float, srange: range}
+_SHIM2REAL = {complex_shim: complex, bytes_shim: bytes, bytearray_shim: bytearray, int_shim: int, float_shim: float, srange: range}
 
-BUILTIN_SHIMS = ('bytearray', 'bytes', 'range', 'int', 'float', 'round', 'isinstance', 'divmod', 'sum')
+BUILTIN_SHIMS = ('bytearray', 'bytes', 'range', 'int', 'float', 'round', 'isinstance', 'divmod', 'sum', 'complex')
 
 STANDARD = {
     'struct': struct_shim, 'array': array_shim, 'bytearray': bytearray_shim, 'bytes': bytes_shim,
     'bytechr': bytechr, 'byteord': byteord, 'bytesjoin': bytesjoin, 'tobytes': tobytes_shim, 'tostr': tostr_shim,
     'BytesIO': BytesIO_shim, 'range': srange, 'int': int_shim, 'float': float_shim, 'round': round_shim,
-    'isinstance': isinstance_shim, 'math': math_shim(), 'divmod': divmod_shim, 'sum': sum_shim, 'type': type_shim,
+    'isinstance': isinstance_shim, 'math': math_shim(), 'complex': complex_shim, 'divmod': divmod_shim, 'sum': sum_shim, 'type': type_shim,
 }
